@@ -350,6 +350,38 @@ def part_c(ctx):
     cov['C_must_succeed_reads_checked'] = checked
 
 
+KNOWN = {
+    'F46': ('class C:\n    y = [(lambda: t)() for t in [1]]\n', None,
+            'a closure inside a comprehension directly in a class body reads the comprehension variable: E02 (comprehension flows live in the class scope, which nested functions skip)'),
+    'F35': ('from .sub import x\nprint(sub)\n', 'pkg',
+            '`from .sub import x` in a package __init__ binds `sub` in the package namespace at run time; supp reports `sub` undefined (asyncio/__init__.py idiom)'),
+}
+
+
+def known_findings(ctx):
+    """re-run the committed inputs of the open findings; print KNOWN-FINDING only if they still fail"""
+    from supp.project import Project
+    from supp.linter import lint
+    import subprocess
+    for f in ctx.open_findings():
+        if f['id'] not in KNOWN:
+            continue
+        src, pkg, what = KNOWN[f['id']]
+        d = os.path.join(ctx.scratch, 'kf_' + f['id'])
+        os.makedirs(os.path.join(d, 'pkg'), exist_ok=True)
+        open(os.path.join(d, 'pkg', 'sub.py'), 'w').write('x = 1\n')
+        fn = os.path.join(d, 'pkg', '__init__.py') if pkg else os.path.join(d, 'm.py')
+        open(fn, 'w').write(src)
+        # CPython: the program runs without NameError
+        code = 'import sys; sys.path.insert(0, %r); import %s' % (d, 'pkg' if pkg else 'm')
+        rc = subprocess.run([sys.executable, '-c', code], capture_output=True, text=True)
+        runs_ok = rc.returncode == 0
+        res = lint(Project([d]), src, fn)
+        e02 = [r for r in res if r[0] in ('E02', 'E42')]
+        if runs_ok and e02:
+            ctx.known_finding(f['id'], what)
+
+
 def run(ctx):
     proof_ok = ctx.coq_props()
     ctx.coverage['rule'] = ('A: generated single-scope bodies with break/continue/raise/return anywhere, decisions enumerated with <=2 trips per loop up to a cap; '
@@ -358,6 +390,7 @@ def run(ctx):
     part_a(ctx)
     part_b(ctx)
     part_c(ctx)
+    known_findings(ctx)
     if not proof_ok:
         ctx.violation('proof obligations of Props/C01.v not discharged: %s' % ctx.notes,
                       {'kind': 'proof', 'theorem': 'Props/C01.v', 'build_error': ctx.coverage.get('build_error')}, found_input=False)
